@@ -62,8 +62,12 @@ fn lossless(src: &str) -> String {
     let root = p.syntax_node();
     let mut pos: u32 = 0;
     let mut text = String::new();
-    let mut tok = root.first_token();
-    while let Some(t) = tok {
+    // N.B. not `first_token()/next_token()`: rowan's `next_token` stops at an empty node
+    for el in root.descendants_with_tokens() {
+        let t = match el {
+            NodeOrToken::Token(t) => t,
+            NodeOrToken::Node(_) => continue,
+        };
         let r = t.text_range();
         if u32::from(r.start()) != pos {
             return format!("FAIL gap-or-overlap at {}", pos);
@@ -73,7 +77,6 @@ fn lossless(src: &str) -> String {
         }
         pos = r.end().into();
         text.push_str(t.text());
-        tok = t.next_token();
     }
     if pos as usize != src.len() {
         return format!("FAIL tokens end at {} of {}", pos, src.len());
